@@ -138,7 +138,7 @@ func (p *Pipe) Write(b []byte) (int, error) {
 		if m := p.draw("wr", p.cfg.WriteMax); m > 0 && m < piece {
 			piece = m
 		}
-		if p.cfg.Latency > 0 {
+		if p.cfg.Latency > 0 && n == 0 {
 			time.Sleep(p.cfg.Latency)
 			Yield(sitePipeWriteW)
 		}
@@ -308,12 +308,12 @@ func (p *Pipe) Closed() (bool, bool) { p.mu.Lock(); defer p.mu.Unlock(); return 
 type ReadEnd struct{ P *Pipe }
 
 func (r ReadEnd) Read(b []byte) (int, error) { return r.P.Read(b) }
-func (r ReadEnd) Close() error                { return r.P.CloseRead() }
+func (r ReadEnd) Close() error               { return r.P.CloseRead() }
 
 type WriteEnd struct{ P *Pipe }
 
 func (w WriteEnd) Write(b []byte) (int, error) { return w.P.Write(b) }
-func (w WriteEnd) Close() error                 { return w.P.CloseWrite() }
+func (w WriteEnd) Close() error                { return w.P.CloseWrite() }
 
 // Duplex is one side of a bidirectional channel (io.Reader+io.Writer+io.Closer).
 type Duplex struct {
@@ -329,3 +329,7 @@ func (d Duplex) Close() error {
 	_ = d.Out.CloseWrite()
 	return d.In.CloseRead()
 }
+
+// KillWrite / KillRead close a side without a scheduling point (process death).
+func (p *Pipe) KillWrite() { p.mu.Lock(); p.wclosed = true; p.mu.Unlock() }
+func (p *Pipe) KillRead()  { p.mu.Lock(); p.rclosed = true; p.mu.Unlock() }
